@@ -102,7 +102,10 @@ def build(case):
     if kind == "break-before-dot" and LY.dot_break(ctext) is not None:
         # the condition text as it stands in the source (line breaks and indentation included)
         seg = "\n".join(text.split("\n")[start - 1:end])
-        i = seg.index("lambda %s: " % ", ".join(lam_params)) + len("lambda %s: " % ", ".join(lam_params))
+        import re
+
+        # (the rendered parameter list may carry defaults of the condition's own: `lambda G, ys, L=41: ...`)
+        i = re.search(r"lambda [^:\n]*: ", seg).end()
         reported = seg[i:seg.rindex(",\n")]
     return {"text": text, "ctext": ctext, "reported": reported, "lam_params": lam_params, "inputs": inputs, "b": b}
 
